@@ -140,6 +140,7 @@ mk_global  xor_check_sse, function
 func(xor_check_sse)
 	FUNC_SAVE
 %ifidn PS,8				;64-bit code
+	movsxd	vec, DWORD(vec)	;vects is a signed int
 	sub	vec, 1			; Keep as offset to last source
 %else					;32-bit code
 	mov	tmp, arg(0)		; Update vec length arg to last source
